@@ -21,6 +21,7 @@ func c07(c *Ctx) {
 	r.Decides("the add and remove arms of the used ledger, the per-pod allocation set and the VF allocations are duals on the same amounts; the duplicate-event guard protects both arms; values stored into the ledgers are fresh copies (no aliasing between ledgers and per-pod records)")
 	r.Decides("a device is handed out only if it has non-zero resources and request <= free; allocation fails exactly when fewer than the desired number were found; the topology-aware GPU allocator requires request <= free and membership in the filtered device totals")
 	r.Decides("the node device ledgers are accessed only under nodeDevice.lock")
+	r.Decides("a pod delete that arrives as a tombstone (by value) reaches deletePod like a plain delete; no assertion to the pointer tombstone type")
 	r.Declines("the sums themselves and 'fails only if no feasible set exists' (combinatorial)")
 
 	c07typestate(c)
